@@ -20,6 +20,11 @@ def _t(text, tech, ref, note=TRACE_NOTE):
     return dict(text=text, technique=tech, design_ref=ref, note=note)
 
 TEXT.update({
+ "C15": dict(
+    technique="TLA+ definition of nearest-better clustering (NBC.tla) checked by TLC; exhaustive lattice tables replayed on NearestBetterClustering with metamorphic images",
+    text="NBC.tla is the definition in integers (ties, truncation as a relation, strictly-better attachment, threshold test exact); TLC checks best-is-seed, scale/translate/mirror invariance and factor monotonicity on every bounded population and writes every case with its acceptable results; the replay runs the real class on each case under several embeddings (dimension, axis, exact scales incl. spacing 2^-30 around 1.0 and 2^20), permuted input orders and both directions, comparing seeds and distances.",
+    note="Trusted: TLC, exact power-of-two concretisation. Population size is bounded (quick 4, thorough 5; 2-D grid 3-4 points).",
+    design_ref="4/C15"),
  "C16": dict(
     technique="TLA+ state machine of wrapper stacks (Problem.tla) model-checked by TLC; every (stack, call sequence) of the model replayed on real wrapper objects",
     text="TLC explores all wrapper stacks up to depth 3 (thorough 4) over {counting, stats, precision, cutoff(N)} and all call sequences, checks transparency, count law, cutoff prefix / hard budget, first-hit and stickiness as invariants / action properties, and writes every maximal behaviour; each is replayed call by call on real EvalCountingProblem / EvalCutoffProblem / PrecisionCutoffProblem / StatsGatheringProblem stacks in both directions with the projected state compared after every call.",
